@@ -8,7 +8,9 @@ THEOREMS = {
     "C01": ("TrVerif.Props.C01", ["Tr.C01", "Tr.C01_with", "Tr.C01_modulo_cleanup", "Tr.cleanupPreserves", "Tr.revScanList_inv", "Tr.reconLoop_valid", "Tr.emit_valid"]),
     "C02": ("TrVerif.Props.C02", ["Tr.C02_partial", "Tr.C02_times", "Tr.C02_arrival", "Tr.C02_first_wait", "Tr.stepsOfLegs_transfer", "Tr.bestEgress_spec"]),
     "C06": ("TrVerif.Props.C06", ["Tr.C06_totals", "Tr.C06_route"]),
-    "C07": ("TrVerif.Props.C07", ["Tr.C07_route_strings", "Tr.C07_accessibility_strings", "Tr.C07_enum_order", "Tr.C07_access"]),
+    "C07": ("TrVerif.Props.C07Data", ["Tr.C07_route_strings", "Tr.C07_accessibility_strings", "Tr.C07_enum_order", "Tr.C07_access",
+                                      "Tr.C07_route_no_service_from_origin", "Tr.C07_no_service_from_origin_data", "Tr.C07_no_service_from_origin",
+                                      "Tr.C07_no_service_at_place_forward", "Tr.fwdScan_count_zero", "Tr.fwdIndex_spec", "Tr.before_start_early"]),
     # module NonVacuity imports C08 (and C02, C09): a concrete dataset meeting the hypotheses of C01/C02/C06/C08/C09 on which all four calculations succeed
     "C08": ("TrVerif.Props.NonVacuity", ["Tr.C08_sound", "Tr.forwardNode_sound", "Tr.fwdScanList_inv", "Tr.fwdStep_inv", "Tr.init_FInv", "Tr.nv_hypotheses", "Tr.nv_results"]),
     "C09": ("TrVerif.Props.C09", ["Tr.C09_sound", "Tr.reverseNode_sound", "Tr.collectNodes_sorted", "Tr.collectNodes_mem"]),
@@ -79,9 +81,13 @@ _reg("C06", "PROOF (full, over the model): Tr.C06_totals - the clock chain and e
      "can produce; Tr.C06_route lifts it to every route returned on a well-formed dataset. " + _M + "; " + _O + ".",
      "Lean 4 theorem over the emission model + differential correspondence")
 _reg("C07", "PROOF (partial): Tr.C07_access - the NO_ACCESS_* trichotomy is returned exactly when the router offers no stop at both ends / origin / destination; "
-     "both reason-to-string switches and the enum order are regenerated from the source and proved total and injective. The NO_SERVICE_* characterisation "
-     "by the data is NOT proved; it is evaluated per answer by the oracle reason_spec. " + _M + ".",
-     "Lean 4 theorem (partial) + regenerated tables + differential correspondence + executable oracle")
+     "Tr.C07_route_no_service_from_origin - for every dataset, scenario and departure-time query inside [0, 32 h) with non-negative access walks, /v2/route answers NO_SERVICE_FROM_ORIGIN exactly "
+     "when NO connection of an admitted trip can be caught from an access stop within the limits (CaughtF: leaves no earlier than request + shortest access walk, trip not excluded, within "
+     "max_travel_time, boarding stop reached by the access walk no later than departure - minimum waiting, first-waiting cap); Tr.C07_no_service_at_place_forward: the same for departure-time "
+     "accessibility; proved via 'the forward pass counts nothing iff no scanned connection is caught' and the transparency of the hour index (Tr.fwdIndex_spec: everything before the start "
+     "position leaves before the requested hour). Both reason-to-string switches and the enum order are regenerated from the source. NOT proved: the NO_SERVICE_TO_DESTINATION side (reverse "
+     "scan count) and that NO_ROUTING_FOUND is returned only when neither applies AND no journey exists (needs completeness); these are evaluated per answer by the oracle reason_spec. " + _M + ".",
+     "Lean 4 theorems (access trichotomy; NO_SERVICE_FROM_ORIGIN iff by the data incl. hour-index transparency) + regenerated tables + differential correspondence + executable oracle")
 _reg("C10", "PROOF (partial): Tr.C10_alternatives - same success/failure and reason as without alternatives, routes[0] is the plain answer, pairwise distinct "
      "sorted line lists, at most 50 routes and totalRoutesCalculated >= their number; validity of each further route is Tr.C01_with. 'No better than "
      "routes[0]' needs the optimality theorems and is decided per answer by the oracle. " + _M + ".",
